@@ -226,6 +226,13 @@ def termSetpenDelta (t p : Pen) : Pen :=
 
 /-! ## The grid terminal -/
 
+/-- One decoded character: its bytes, code point and column width. -/
+structure Ch where
+  bytes : List UInt8
+  cp : Nat
+  width : Int
+deriving DecidableEq, Repr
+
 /-- What a terminal cell shows. -/
 inductive Glyph
   /-- erased -/
@@ -285,21 +292,24 @@ def addZeroWidth (t : GridTerm) (bs : List UInt8) : GridTerm :=
 
 /-- The terminal's reading of `bs` from byte `i`: UTF-8 as the library decodes it (`next_utf8`), widths from the
     library's tables; a byte that starts no sequence, a control character and a non-character take one column. -/
-def printLoop (bs : List UInt8) : Nat → Nat → GridTerm → GridTerm
-  | 0, _, t => t
-  | fuel + 1, i, t =>
-    if i ≥ bs.length then t
+def termDecode (bs : List UInt8) : Nat → Nat → List Ch
+  | 0, _ => []
+  | fuel + 1, i =>
+    if i ≥ bs.length then []
     else
       match Utf8.nextUtf8 bs i (some (bs.length - i)) with
-      | none => printLoop bs fuel (i + 1) (t.putGlyph ((bs.drop i).take 1) 1)
+      | none => ⟨(bs.drop i).take 1, Utf8.byteAt bs i, 1⟩ :: termDecode bs fuel (i + 1)
       | some d =>
-        let w := Utf8.wcwidth d.cp
-        let g := (bs.drop i).take d.n
-        if w = 0 then printLoop bs fuel (i + d.n) (t.addZeroWidth g)
-        else printLoop bs fuel (i + d.n) (t.putGlyph g (if w < 0 then 1 else w))
+        ⟨(bs.drop i).take d.n, d.cp, if Utf8.wcwidth d.cp < 0 then 1 else Utf8.wcwidth d.cp⟩ :: termDecode bs fuel (i + d.n)
+
+/-- One character arrives: width 0 joins the previous character, otherwise it is put at the cursor. -/
+def putCh (t : GridTerm) (c : Ch) : GridTerm :=
+  if c.width = 0 then t.addZeroWidth c.bytes else t.putGlyph c.bytes c.width
+
+def putChs (t : GridTerm) (cs : List Ch) : GridTerm := cs.foldl putCh t
 
 /-- The driver's `print(str, len)` once the bytes are known. -/
-def printBytes (t : GridTerm) (bs : List UInt8) : GridTerm := printLoop bs (bs.length + 1) 0 t
+def printBytes (t : GridTerm) (bs : List UInt8) : GridTerm := t.putChs (termDecode bs (bs.length + 1) 0)
 
 /-- The bytes a print request delivers: `len` bytes from `start`; through `write_str`, `len = 0` means up to the NUL. -/
 def reqBytes (viaWriteStr : Bool) (s : List UInt8) (start len : Nat) : List UInt8 :=
@@ -358,26 +368,25 @@ end GridTerm
 
 /-! ## The specification: `overlay (content of the buffer) (old grid)` -/
 
-/-- One decoded character of a text. -/
-structure Ch where
-  bytes : List UInt8
-  width : Int
-deriving DecidableEq, Repr
-
-/-- The characters of `s` from byte `i`, as the width counter (`tickit_utf8_ncountmore` without limit) accepts them:
-    decoding stops at the NUL, at the end, and at anything the counter rejects. -/
-def decodeFrom (s : List UInt8) : Nat → Nat → List Ch
-  | 0, _ => []
+/-- The characters of `s` from byte `i`, as the width counter (`tickit_utf8_ncountmore` without limit) reads them up
+    to the NUL; `none` when the counter rejects the text (or the fuel, one more than the number of characters, runs out). -/
+def decodeFrom (s : List UInt8) : Nat → Nat → Option (List Ch)
+  | 0, _ => none
   | fuel + 1, i =>
-    if Utf8.byteAt s i = 0 then []
+    if Utf8.byteAt s i = 0 then some []
     else match Utf8.nextUtf8 s i none with
-      | none => []
+      | none => none
       | some d =>
-        if d.cp < 0x20 || (d.cp ≥ 0x80 && d.cp < 0xa0) then []
-        else if Utf8.wcwidth d.cp = -1 then []
-        else ⟨(s.drop i).take d.n, Utf8.wcwidth d.cp⟩ :: decodeFrom s fuel (i + d.n)
+        if d.cp < 0x20 || (d.cp ≥ 0x80 && d.cp < 0xa0) then none
+        else if Utf8.wcwidth d.cp = -1 then none
+        else (decodeFrom s fuel (i + d.n)).map (⟨(s.drop i).take d.n, d.cp, Utf8.wcwidth d.cp⟩ :: ·)
 
-def decode (s : List UInt8) : List Ch := decodeFrom s (s.length + 1) 0
+def decode (s : List UInt8) : Option (List Ch) := decodeFrom s (s.length + 1) 0
+
+/-- Σ width. -/
+def chCols : List Ch → Int
+  | [] => 0
+  | c :: cs => c.width + chCols cs
 
 /-- A grapheme as the terminal shows it: the bytes of a character of width ≥ 1 and of the zero-width characters
     that follow it, and its width.  Zero-width characters before the first such character belong to no column. -/
@@ -400,7 +409,7 @@ def graphemesAux : List Ch → Option Grapheme → List Grapheme
       | none => graphemesAux cs (some ⟨c.bytes, c.width⟩)
       | some g => g :: graphemesAux cs (some ⟨c.bytes, c.width⟩)
 
-def graphemes (s : List UInt8) : List Grapheme := graphemesAux (decode s) none
+def graphemes (s : List UInt8) : Option (List Grapheme) := (decode s).map fun cs => graphemesAux cs none
 
 /-- What column `k` of a laid-out text shows: `(glyph, first column of its grapheme, width)`. -/
 def colGlyph : List Grapheme → Int → Int → Option (Glyph × Int × Int)
@@ -428,24 +437,25 @@ def runStart (rb : RB) (line col : Int) : Int :=
   let cell := rb.cell line col
   if cell.state = .cont then cell.cols else col
 
+/-- What the run with start cell `sc` owes the terminal cell `j` columns into it. -/
+def wantOf (sc : Cell) (j : Int) : Want :=
+  match sc.state with
+  | .skip => .keep
+  | .erase => .glyph .blank sc.pen
+  | .char => .glyph (.chars (Utf8.put sc.cp.toNat)) sc.pen
+  | .line => .line sc.lmask sc.pen
+  | .cont => .unspecified
+  | .text =>
+    match (graphemes sc.text).bind fun gs => colGlyph gs 0 (sc.offs + j) with
+    | none => .unspecified
+    | some (g, c0, w) =>
+      -- a double-width character cut by a boundary of the run cannot be shown: its visible half is blank
+      if sc.offs ≤ c0 ∧ c0 + w ≤ sc.offs + sc.cols then .glyph g sc.pen else .glyph .blank sc.pen
+
 /-- The content of the buffer at `(line, col)`, as an obligation on the terminal cell. -/
 def want (rb : RB) (line col : Int) : Want :=
   if ¬ rb.inGrid line col then .keep
-  else
-    let s := runStart rb line col
-    let sc := rb.cell line s
-    match sc.state with
-    | .skip => .keep
-    | .erase => .glyph .blank sc.pen
-    | .char => .glyph (.chars (Utf8.put sc.cp.toNat)) sc.pen
-    | .line => .line sc.lmask sc.pen
-    | .cont => .unspecified
-    | .text =>
-      match colGlyph (graphemes sc.text) 0 (sc.offs + (col - s)) with
-      | none => .unspecified
-      | some (g, c0, w) =>
-        -- a double-width character cut by a boundary of the run cannot be shown: its visible half is blank
-        if sc.offs ≤ c0 ∧ c0 + w ≤ sc.offs + sc.cols then .glyph g sc.pen else .glyph .blank sc.pen
+  else wantOf (rb.cell line (runStart rb line col)) (col - runStart rb line col)
 
 /-- Rendition equality: `tickit_pen_equiv` (an absent attribute is its default). -/
 def penSame (a b : Pen) : Bool := Pen.equiv a b
@@ -515,5 +525,23 @@ def glyphOK (mask cp : Nat) : Bool :=
   match armsOf cp with
   | none => false
   | some a => sameDirs a (maskArms mask) && (!hasExact (maskArms mask) || a == maskArms mask)
+
+/-- Is `bs` the UTF-8 form of one code point acceptable for line mask `mask`? -/
+def lineGlyphOK (mask : Nat) (bs : List UInt8) : Bool :=
+  match Utf8.nextUtf8 bs 0 (some bs.length) with
+  | none => false
+  | some d => d.n == bs.length && glyphOK mask d.cp
+
+/-- The obligation `w` holds of a terminal cell that was `old` before the flush and is `new` after it: the glyph, the
+    rendition (`tickit_pen_equiv` with the cell's pen) and "written exactly once". -/
+def cellOK (w : Want) (old new : TCell) : Bool :=
+  match w with
+  | .keep => new == old
+  | .unspecified => true
+  | .glyph g p => new.glyph == g && penSame new.pen p && new.writes == old.writes + 1
+  | .line m p =>
+    (match new.glyph with
+     | .chars bs => lineGlyphOK m bs
+     | _ => false) && penSame new.pen p && new.writes == old.writes + 1
 
 end Tickit.RBFlush
